@@ -519,12 +519,21 @@ pub fn run_case(case: &Case, st: &mut Stats) -> CaseResult {
         }
         o
     };
+    let poly_len_mode = wsel.first().map(|w| w[3] & 3).unwrap_or(0);
+    st.bump(&format!("polynomial_len_encoding.{}", ["tight", "tight", "padded-to-3", "padded-to-32"][poly_len_mode as usize]));
     let to_poly = |c: Vec<f64>| -> Polynomial<RealSemiring> {
         let mut p = Polynomial::<RealSemiring>::zero();
         for (i, x) in c.iter().enumerate() {
             p.coefficients[i] = RealSemiring(*x);
         }
-        p.len = c.iter().rposition(|x| *x != 0.0).map(|i| i + 1).unwrap_or(0).max(3);
+        // the `len` field is the number of coefficients in use: the tight encoding (degree + 1, 0 for the zero
+        // polynomial) half the time, else padded with zero coefficients to 3 or to the full 32
+        let tight = c.iter().rposition(|x| *x != 0.0).map(|i| i + 1).unwrap_or(0);
+        p.len = match poly_len_mode {
+            0 | 1 => tight,
+            2 => tight.max(3),
+            _ => MAX_COEFFS,
+        };
         p
     };
     let from_poly = |p: Polynomial<RealSemiring>| -> Vec<f64> { p.coefficients.iter().map(|c| c.0).collect() };
@@ -646,7 +655,7 @@ pub struct Counts;
 impl SubCheckT for Counts {
     type Case = Case;
     const NAME: &'static str = "counts";
-    const RULE: &'static str = "a function (random truth table over <=6 variables with a random support mask, or a random CNF over <=7) represented as BDDs under 3 random orders (regular and negated pointers), SDDs under 2 random vtrees (second one uncompressed when n<=4; regular and negated), an SDD from SemanticSddBuilder over the 64-bit field, and, for CNFs, both top-down stores (regular and negated); every representation is counted against the function read off the diagram itself; weight tables built in four ways (set_weight ascending / descending / WmcParams::new / placeholders overwritten in a scrambled order), weights whose low+high is the semiring's one: real dyadics k/8, all 7 exported finite fields plus GF(2^107-1) and GF(2^127-1) (boundary + random residues), expected utility (p,u)/(1-p,-u), complex, degree-2 integer polynomials and sparse polynomials of mixed degrees 1..31 (degree sums reach and pass the 32-coefficient limit, where products are truncated), rational indicators: every count = exact brute-force sum over models; evaluate() = truth-table bit on all 2^n assignments; arbitrary non-normalised weights on the canonical BDDs = the Shannon sum over the variables each sub-function depends on (order-aware), for all seven semirings. Non-trivial: non-constant function with >=3 support variables";
+    const RULE: &'static str = "a function (random truth table over <=6 variables with a random support mask, or a random CNF over <=7) represented as BDDs under 3 random orders (regular and negated pointers), SDDs under 2 random vtrees (second one uncompressed when n<=4; regular and negated), an SDD from SemanticSddBuilder over the 64-bit field, and, for CNFs, both top-down stores (regular and negated); every representation is counted against the function read off the diagram itself; weight tables built in four ways (set_weight ascending / descending / WmcParams::new / placeholders overwritten in a scrambled order), weights whose low+high is the semiring's one: real dyadics k/8, all 7 exported finite fields plus GF(2^107-1) and GF(2^127-1) (boundary + random residues), expected utility (p,u)/(1-p,-u), complex, degree-2 integer polynomials (constants and linear ones included, `len` tight or padded) and sparse polynomials of mixed degrees 1..31 (degree sums reach and pass the 32-coefficient limit, where products are truncated), rational indicators: every count = exact brute-force sum over models; evaluate() = truth-table bit on all 2^n assignments; arbitrary non-normalised weights on the canonical BDDs = the Shannon sum over the variables each sub-function depends on (order-aware), for all seven semirings. Non-trivial: non-constant function with >=3 support variables";
     fn cases(tier: Tier) -> u32 {
         tier.pick(5000, 60_000)
     }
